@@ -65,7 +65,7 @@ def rand_tree(rng, depth):
             n = rng.randint(-9, 99)
             return bi('ㄱㅅ', lit(n)), ('ret', n)
         if k == 1:
-            s = rng.choice(["a", "bb", "가나", "x y", ""])
+            s = rng.choice(["a", "bb", "가나", "x y", "", "a\n", "\n", "b\r\n", "c\n\n", " ", "d\r"])
             return bi('ㅈㄹ', str_lit(s)), ('print', s)
         if k == 2:
             return bi('ㄹ'), ('read',)
